@@ -1,40 +1,38 @@
 """C18 - a dump that fails validation leaves the destination untouched.
 
-F1 (validator index enumerated inside each sampled run) + F2 (real invalid values
-at nested locators), with and without a previous good copy at the destination.
+All seven formats.  Run: history -> dump(path) (good copy G on SimFS; or - sub-case - no file) -> valid mutation
+-> F1: EVERY validator invocation of one dump raises in turn (counting pass gives N; all k < N, capped at 64
+sampled ones in the quick tier) -> destination must be G byte for byte (or still absent) -> fault removed, dump
+succeeds; then F2: real invalid values at PRNG-chosen nested locators of the C06 table, same check; then heal
+and restart.
 """
-from .. import gen_ci
+from ..kits import KITS, FORMATS
 from ..pools import pick
 
 ID = "C18"
 LEVEL = "fault_enumeration"
-RUNS = {"quick": 480, "thorough": 24000}
+RUNS = {"quick": 1400, "thorough": 35000}
 REQUIRED_FAULTS = ["F1.validator_raises", "F2.invalid_value_dump"]
-MACHINES = ["M-CI"]
+MACHINES = FORMATS
 
 
-def gen_ci_case(rng, tier):
-    K = gen_ci.gen_content(rng, max_vars=5 if tier == "quick" else 7)
-    ops = gen_ci.build_ops(K, rng)
-    path = "/sim/d/composeinfo.json"
+def generate(rng, tier, idx):
+    kit = KITS[FORMATS[idx % len(FORMATS)]]
+    K = kit.content(rng, tier)
+    ops = kit.build(K, rng)
+    path = kit.path
     have_good = rng.random() < 0.75
     if have_good:
-        ops.append({"op": "dump", "path": path})
-        ops.append(gen_ci.valid_mutation(K, rng))
-    cap = 64 if tier == "quick" else None
-    ops.append({"op": "c18_enum", "path": path, "cap": cap})
-    sites = gen_ci.poison_sites(K)
+        ops.append(kit.dump_op(K, rng))
+        ops.append(kit.mutation(K, rng))
+    ops.append({"op": "c18_enum", "path": path, "cap": 64 if tier == "quick" else None})
+    sites = kit.sites(K)
     for _ in range(rng.randint(1, 4)):
-        site = pick(rng, sites)
-        p, h = gen_ci.poison_ops(site)
-        ops.append(gen_ci.valid_mutation(K, rng))
+        p, h = kit.poison(pick(rng, sites))
+        ops.append(kit.mutation(K, rng))
         ops.append(p)
         ops.append({"op": "dump", "path": path})
         ops.append(h)
         ops.append({"op": "dump", "path": path})
     ops.append({"op": "restart", "path": path, "via": pick(rng, ["path", "handle", "loads"]), "offset": rng.randint(0, 500)})
-    return {"machine": "M-CI", "cfg": {"simset": pick(rng, ["insertion", "shuffle", "reverse", "sorted"])}, "ops": ops}
-
-
-def generate(rng, tier, idx):
-    return gen_ci_case(rng, tier)
+    return {"machine": kit.machine, "cfg": kit.cfg(rng), "ops": ops}
